@@ -18,8 +18,17 @@
 //!     the lock of every row it wrote right after its statement,
 //!   * calm-rollback oracle (`rollback_restores`): a rollback of a transaction none of whose rows was interfered
 //!     with after a lock expiry answers Ok,
-//!   * index oracle: every index-served answer equals the filter of the full-scan image (no missing row, no
-//!     duplicate), finished-transaction oracle, lock-release / lock-expiry oracles,
+//!   * index oracle, after EVERY statement and whether or not the model still agrees (after a model disagreement
+//!     the model is no longer asked, the real run goes on under all oracles): every index-served answer (Eq on each
+//!     hash-indexed column, Lt/Le/Gt/Ge on each b-tree-indexed column, all values) equals the filter of the
+//!     full-scan image (no missing row, no duplicate).  Right after the rollback of an open transaction a wrong
+//!     answer counts as one of the KNOWN findings only in the two situations `rollback_restores` excludes — that
+//!     index was created after the transaction's first write to the table, or a row of the transaction was shared
+//!     after a lock expiry; in a calm rollback it is `relational_engine.rollback/index_entry_lost_after_same_value_update`
+//!     (the missing row had an indexed column written back with its current value: `undo_update_keeps_index_exact`),
+//!     `…/index_answer_missing_row` or `…/duplicate_row_in_index_answer_after_calm_rollback`.  Directed same-value
+//!     scripts run first; the random generator aims one update in four at an indexed column's current value,
+//!   * finished-transaction oracle, lock-release / lock-expiry oracles,
 //!   * foreign-lock oracle (`release_keeps_foreign_locks` / `held_lock_survives_others`): the holder of every row
 //!     is read before and after EVERY statement other than a tick; a row held by an open transaction that the
 //!     statement did not end must still be held by it — in particular after another transaction's commit /
@@ -234,6 +243,10 @@ struct Hd {
     interfered: BTreeSet<Key>,
     /// rows of `first_touch` whose full-scan image was changed by somebody else's statement / rollback afterwards
     clobbered: BTreeSet<Key>,
+    /// step of the transaction's first statement that matched / created a row of table `t` (= first undo entry on `t`)
+    first_write_step: BTreeMap<usize, usize>,
+    /// (row, column): a `tx_update` of this transaction assigned the column the value the row already held
+    same_val: BTreeSet<(Key, usize)>,
 }
 
 #[derive(Default)]
@@ -268,7 +281,10 @@ struct World {
     log: Vec<(Option<usize>, Key, Option<Vec<i64>>)>,
     /// why a row may legitimately/illegitimately differ: "hole" | "expiry" | "cleanup"
     taint: BTreeMap<Key, &'static str>,
-    idx_reported: BTreeSet<usize>,
+    /// indexes (table, column, is_btree) whose first wrong answer has been reported; cleared when the index is re-created
+    idx_reported: BTreeSet<(usize, usize, bool)>,
+    /// step at which the index (table, column, is_btree) was created
+    idx_created: BTreeMap<(usize, usize, bool), usize>,
     /// highest row id ever seen alive, per table
     hi: Vec<u64>,
     vnow: u64,
@@ -303,6 +319,7 @@ impl World {
             log: vec![],
             taint: BTreeMap::new(),
             idx_reported: BTreeSet::new(),
+            idx_created: BTreeMap::new(),
             hi: vec![],
             vnow: 0,
             lock_ms: cfg.lock_secs * 1000,
@@ -496,6 +513,15 @@ fn exec_script(ops: &[Op], cfg: Cfg, mut model: Option<&mut Model>) -> Outcome {
         }
     };
     let mut last_site = "create_table";
+    // Once the model has answered differently (recorded as a disagreement) it is no longer asked: the REAL run goes
+    // on to the end of the script and every oracle keeps being evaluated on the real engine's own answers, so a
+    // regression that first shows as a model/implementation difference still gets its failing input.
+    let mut diverged = false;
+    macro_rules! mdl {
+        () => {
+            if diverged { None } else { model.as_deref_mut() }
+        };
+    }
     for (step, op) in ops.iter().enumerate() {
         out.steps_done = step + 1;
         let before = w.images();
@@ -508,7 +534,7 @@ fn exec_script(ops: &[Op], cfg: Cfg, mut model: Option<&mut Model>) -> Outcome {
         let after = w.images();
         // ---- model statement
         let mut r_cmp = r_real.clone();
-        if let Some(m) = model.as_deref_mut() {
+        if let Some(m) = mdl!() {
             if !matches!(op, Op::Sweep) {
                 let line = op.line(&|h| w.model_tx(h));
                 let a = m.ask(&line);
@@ -523,12 +549,15 @@ fn exec_script(ops: &[Op], cfg: Cfg, mut model: Option<&mut Model>) -> Outcome {
                         },
                         _ => {
                             cmp(&mut out, "stmt", step, &line, &r_real, &a);
-                            return out;
+                            diverged = true;
+                            if let Some(rid) = rid {
+                                w.handles.insert(*h, new_hd(rid, 0, w.vnow));
+                            }
                         },
                     }
                 }
-                if !cmp(&mut out, "stmt", step, &line, &r_cmp, &a) {
-                    return out;
+                if !diverged && !cmp(&mut out, "stmt", step, &line, &r_cmp, &a) {
+                    diverged = true;
                 }
             }
         } else if let Op::Begin(h) = op {
@@ -538,6 +567,14 @@ fn exec_script(ops: &[Op], cfg: Cfg, mut model: Option<&mut Model>) -> Outcome {
         }
         let ok = r_real.starts_with("ok") || r_real.starts_with("begin");
         out.hit(&format!("op:{site}:{}", if ok { "ok".to_string() } else { r_real.replace("err ", "") }));
+        if ok {
+            if let Op::CreateIndex(t, c) | Op::CreateBtree(t, c) = op {
+                // a freshly built index: judged anew
+                let key = (*t, *c, matches!(op, Op::CreateBtree(..)));
+                w.idx_created.insert(key, step);
+                w.idx_reported.remove(&key);
+            }
+        }
 
         // ---- diff of the real full-scan images
         let mut diff: Vec<(Key, Option<Vec<i64>>, Option<Vec<i64>>)> = vec![];
@@ -634,7 +671,33 @@ fn exec_script(ops: &[Op], cfg: Cfg, mut model: Option<&mut Model>) -> Outcome {
                     w.log.push((wr, *k, post.clone()));
                 }
                 if let Some(h) = wr {
+                    // same-value assignments: the statement wrote a column back with the value the row already held
+                    // (the engine still records an index change old == new for it when the column is indexed)
+                    let mut same: Vec<(Key, usize)> = vec![];
+                    if let Op::TxUpdate(_, t, _, u) = op {
+                        let (hc, bc) = (w.hash_cols(*t), w.btree_cols(*t));
+                        for k in &locked {
+                            let Some(pre) = before.get(k.0).and_then(|img| img.get(&k.1)) else { continue };
+                            for (c, v) in u {
+                                if pre.get(*c) == Some(v) {
+                                    same.push((*k, *c));
+                                    if hc.contains(c) {
+                                        out.hit("same_value_tx_update:hash_indexed_column");
+                                    }
+                                    if bc.contains(c) {
+                                        out.hit("same_value_tx_update:btree_indexed_column");
+                                    }
+                                }
+                            }
+                        }
+                    }
                     if let Some(hd) = w.handles.get_mut(&h) {
+                        if !locked.is_empty() || !diff.is_empty() {
+                            if let Op::TxInsert(_, t, _) | Op::TxUpdate(_, t, ..) | Op::TxDelete(_, t, _) = op {
+                                hd.first_write_step.entry(*t).or_insert(step);
+                            }
+                        }
+                        hd.same_val.extend(same);
                         for (k, pre, _) in &diff {
                             hd.first_touch.entry(*k).or_insert_with(|| pre.clone());
                         }
@@ -814,6 +877,22 @@ fn exec_script(ops: &[Op], cfg: Cfg, mut model: Option<&mut Model>) -> Outcome {
             }
         }
         if let Some(h) = ended {
+            if matches!(op, Op::Commit(_) | Op::Rollback(_)) {
+                // the end of a transaction that wrote an INDEXED column back with its current value (index oracle below)
+                let sv: Vec<(usize, usize)> = w.handles[&h].same_val.iter().map(|(k, c)| (k.0, *c)).collect();
+                let mut seen: BTreeSet<&'static str> = BTreeSet::new();
+                for (t, c) in sv {
+                    if w.hash_cols(t).contains(&c) {
+                        seen.insert("hash");
+                    }
+                    if w.btree_cols(t).contains(&c) {
+                        seen.insert("btree");
+                    }
+                }
+                for kind in seen {
+                    out.hit(&format!("{site}_after_same_value_update:{kind}_index_checked"));
+                }
+            }
             // lock release oracle
             let real = w.handles[&h].real;
             let mut left = w.eng.tx_manager().locks_held_by(real);
@@ -883,40 +962,77 @@ fn exec_script(ops: &[Op], cfg: Cfg, mut model: Option<&mut Model>) -> Outcome {
         let lock_step = full || matches!(op, Op::TxUpdate(..) | Op::TxDelete(..) | Op::Tick(_));
         for t in 0..w.ntables {
             let (hc, bc) = (w.hash_cols(t), w.btree_cols(t));
-            if let Some(m) = model.as_deref_mut() {
+            if let Some(m) = mdl!() {
                 let rows: Vec<(u64, Vec<i64>)> = after[t].iter().map(|(k, v)| (*k, v.clone())).collect();
                 let img = format!("img {}|H:{}|B:{}", rows_tok(&rows), World::nats(&hc), World::nats(&bc));
                 let a = m.ask(&format!("image {t}"));
                 if !cmp(&mut out, "image", step, &format!("image {t}"), &img, &a) {
-                    return out;
+                    diverged = true;
                 }
             }
-            // index oracle after EVERY statement (real engine only): an index-served answer is the filter of
-            // the full-scan image.  Model comparison of the same answers on `full` steps.
+            // index oracle after EVERY statement (real engine only, whether or not the model still agrees): an
+            // index-served answer is the filter of the full-scan image.  Model comparison of the same answers on
+            // `full` steps.
             for c in sweep_conds(&hc, &bc) {
+                let key = match &c {
+                    Cond::Eq(col, _) => (t, *col, false),
+                    Cond::Lt(col, _) | Cond::Le(col, _) | Cond::Gt(col, _) | Cond::Ge(col, _) => (t, *col, true),
+                    _ => (t, usize::MAX, false),
+                };
                 let real = w.select_rows(t, &c);
                 let want: Vec<(u64, Vec<i64>)> = after[t].iter().filter(|(id, v)| c.holds(**id, v)).map(|(k, v)| (*k, v.clone())).collect();
                 if let Ok(got) = &real {
-                    if got != &want && !w.idx_reported.contains(&t) {
-                        w.idx_reported.insert(t);
+                    if got != &want && !w.idx_reported.contains(&key) {
+                        w.idx_reported.insert(key);
                         let ids: Vec<u64> = got.iter().map(|r| r.0).collect();
                         let mut uniq = ids.clone();
                         uniq.dedup();
-                        let missing = want.iter().any(|r| !ids.contains(&r.0));
-                        let kind = if missing {
-                            if site == "rollback" { "index_entry_not_restored" } else { "index_answer_missing_row" }
-                        } else if uniq.len() != ids.len() {
-                            "duplicate_row_in_index_answer"
-                        } else {
-                            "index_answer_wrong"
+                        let missing_ids: Vec<u64> = want.iter().filter(|r| !ids.contains(&r.0)).map(|r| r.0).collect();
+                        let missing = !missing_ids.is_empty();
+                        let dup = uniq.len() != ids.len();
+                        // the rollback of an open transaction that has just run (None for every other statement)
+                        let rb = match op {
+                            Op::Rollback(h) if ended == Some(*h) => w.handles.get(h),
+                            _ => None,
+                        };
+                        let mut extra = String::new();
+                        let kind = match rb {
+                            Some(hd) => {
+                                // the two situations `rollback_restores` excludes (known findings): the index was created
+                                // after the transaction's first write to the table, or one of its rows was shared with
+                                // another transaction after a lock expiry
+                                let ddl = w.idx_created.get(&key).zip(hd.first_write_step.get(&t)).is_some_and(|(ci, fw)| ci > fw);
+                                let expiry = !hd.interfered.is_empty();
+                                if ddl || expiry {
+                                    if missing { "index_entry_not_restored" } else if dup { "duplicate_row_in_index_answer" } else { "index_answer_wrong" }
+                                } else if missing {
+                                    // calm rollback (no lock expiry, index older than the transaction's writes)
+                                    let sv: Vec<u64> = missing_ids.iter().copied().filter(|id| hd.same_val.contains(&((t, *id), key.1))).collect();
+                                    if !sv.is_empty() {
+                                        extra = format!("; the rolled-back transaction had assigned c{} of row(s) {sv:?} the value the row already held \
+                                                         (tx_update with old value == new value on an indexed column), no lock expired and the index \
+                                                         existed before the transaction's first write", key.1);
+                                        "index_entry_lost_after_same_value_update"
+                                    } else {
+                                        extra = "; no lock expired and the index existed before the transaction's first write".into();
+                                        "index_answer_missing_row"
+                                    }
+                                } else if dup {
+                                    extra = "; no lock expired and the index existed before the transaction's first write".into();
+                                    "duplicate_row_in_index_answer_after_calm_rollback"
+                                } else {
+                                    "index_answer_wrong"
+                                }
+                            },
+                            None => if missing { "index_answer_missing_row" } else if dup { "duplicate_row_in_index_answer" } else { "index_answer_wrong" },
                         };
                         let site2 = if matches!(op, Op::Sweep) { last_site } else { site };
                         out.viol(format!("relational_engine.{site2}/{kind}"),
-                                 format!("select t{t} {} through the index = [{}], full scan + filter = [{}]", c.tok(), rows_tok(got), rows_tok(&want)), step);
+                                 format!("select t{t} {} through the index = [{}], full scan + filter = [{}]{extra}", c.tok(), rows_tok(got), rows_tok(&want)), step);
                     }
                 }
                 if full {
-                    if let Some(m) = model.as_deref_mut() {
+                    if let Some(m) = mdl!() {
                         let real_s = match &real {
                             Ok(r) => format!("rows {}", rows_tok(r)),
                             Err(e) => format!("err {e}"),
@@ -924,7 +1040,7 @@ fn exec_script(ops: &[Op], cfg: Cfg, mut model: Option<&mut Model>) -> Outcome {
                         let q = format!("select {t} {}", c.tok());
                         let a = m.ask(&q);
                         if !cmp(&mut out, "query", step, &q, &real_s, &a) {
-                            return out;
+                            diverged = true;
                         }
                     }
                 }
@@ -933,9 +1049,9 @@ fn exec_script(ops: &[Op], cfg: Cfg, mut model: Option<&mut Model>) -> Outcome {
             if !lock_step {
                 continue;
             }
-            if let Some(m) = model.as_deref_mut() {
-                let maxid = before.get(t).and_then(|i| i.keys().max().copied()).unwrap_or(0).max(after[t].keys().max().copied().unwrap_or(0)) + 2;
-                for id in 1..=maxid {
+            let maxid = before.get(t).and_then(|i| i.keys().max().copied()).unwrap_or(0).max(after[t].keys().max().copied().unwrap_or(0)) + 2;
+            for id in 1..=maxid {
+                if let Some(m) = mdl!() {
                     let real = match w.eng.tx_manager().row_lock_holder(&World::tname(t), id) {
                         Some(r) => match w.handles.values().find(|h| h.real == r) {
                             Some(h) => format!("h {}", h.model),
@@ -946,31 +1062,37 @@ fn exec_script(ops: &[Op], cfg: Cfg, mut model: Option<&mut Model>) -> Outcome {
                     let q = format!("holder {t} {id}");
                     let a = m.ask(&q);
                     if !cmp(&mut out, "locks", step, &q, &real, &a) {
-                        return out;
+                        diverged = true;
                     }
                 }
             }
         }
-        if let Some(m) = model.as_deref_mut().filter(|_| lock_step) {
+        if lock_step {
             let hs: Vec<(u64, u64)> = w.handles.values().map(|h| (h.real, h.model)).collect();
             for (real, mid) in hs {
-                let q = format!("held {mid}");
-                let a = m.ask(&q);
-                let r = format!("n {}", w.eng.tx_manager().locks_held_by(real));
-                if !cmp(&mut out, "locks", step, &q, &r, &a) {
-                    return out;
+                if let Some(m) = mdl!() {
+                    let q = format!("held {mid}");
+                    let a = m.ask(&q);
+                    let r = format!("n {}", w.eng.tx_manager().locks_held_by(real));
+                    if !cmp(&mut out, "locks", step, &q, &r, &a) {
+                        diverged = true;
+                    }
                 }
-                let q = format!("active {mid}");
-                let a = m.ask(&q);
-                let r = format!("{}", w.eng.is_transaction_active(real));
-                if !cmp(&mut out, "locks", step, &q, &r, &a) {
-                    return out;
+                if let Some(m) = mdl!() {
+                    let q = format!("active {mid}");
+                    let a = m.ask(&q);
+                    let r = format!("{}", w.eng.is_transaction_active(real));
+                    if !cmp(&mut out, "locks", step, &q, &r, &a) {
+                        diverged = true;
+                    }
                 }
             }
-            let a = m.ask("nlocks");
-            let r = format!("n {}", w.eng.tx_manager().active_lock_count());
-            if !cmp(&mut out, "locks", step, "nlocks", &r, &a) {
-                return out;
+            if let Some(m) = mdl!() {
+                let a = m.ask("nlocks");
+                let r = format!("n {}", w.eng.tx_manager().active_lock_count());
+                if !cmp(&mut out, "locks", step, "nlocks", &r, &a) {
+                    diverged = true;
+                }
             }
         }
         // timing guard for timeout scripts
@@ -993,6 +1115,8 @@ fn new_hd(real: u64, model: u64, now: u64) -> Hd {
         lock_time: BTreeMap::new(),
         interfered: BTreeSet::new(),
         clobbered: BTreeSet::new(),
+        first_write_step: BTreeMap::new(),
+        same_val: BTreeSet::new(),
     }
 }
 
@@ -1022,8 +1146,144 @@ fn gen_upd(rng: &mut Rng) -> Vec<(usize, i64)> {
     }
 }
 
-/// random script: setup (tables, indexes, committed rows), 2-4 interleaved transactions, all ended at the end
+/// What the generator believes the tables look like while it writes a script (no lock expiry in these streams:
+/// a statement that matches a row written by another open transaction fails as a whole).  Used only to AIM
+/// statements — e.g. an update that assigns an indexed column the value the row currently holds; the harness never
+/// relies on it being right (the executor recomputes everything from the real engine's answers).
+#[derive(Default)]
+struct Sim {
+    rows: Vec<BTreeMap<u64, Vec<i64>>>,
+    next_id: Vec<u64>,
+    owner: BTreeMap<Key, usize>,
+    undo: BTreeMap<usize, Vec<(Key, Option<Vec<i64>>)>>,
+    indexed: Vec<BTreeSet<(usize, bool)>>,
+}
+
+impl Sim {
+    fn write(&mut self, h: Option<usize>, k: Key, new: Option<Vec<i64>>) {
+        let old = self.rows[k.0].get(&k.1).cloned();
+        if let Some(h) = h {
+            self.undo.entry(h).or_default().push((k, old));
+            self.owner.insert(k, h);
+        }
+        match new {
+            Some(v) => { self.rows[k.0].insert(k.1, v); },
+            None => { self.rows[k.0].remove(&k.1); },
+        }
+    }
+    fn matched(&self, h: Option<usize>, t: usize, c: &Cond) -> Option<Vec<u64>> {
+        let ids: Vec<u64> = self.rows.get(t)?.iter().filter(|(id, v)| c.holds(**id, v)).map(|(id, _)| *id).collect();
+        if ids.iter().any(|id| self.owner.get(&(t, *id)).is_some_and(|o| Some(*o) != h)) {
+            return None; // lock conflict
+        }
+        Some(ids)
+    }
+    fn apply(&mut self, op: &Op) {
+        let open = |s: &Sim, h: &usize| s.undo.contains_key(h);
+        match op {
+            Op::CreateTable => {
+                self.rows.push(BTreeMap::new());
+                self.next_id.push(1);
+                self.indexed.push(BTreeSet::new());
+            },
+            Op::Begin(h) => { self.undo.insert(*h, vec![]); },
+            Op::Commit(h) => {
+                if self.undo.remove(h).is_some() {
+                    self.owner.retain(|_, o| o != h);
+                }
+            },
+            Op::Rollback(h) => {
+                if let Some(log) = self.undo.remove(h) {
+                    for (k, old) in log.into_iter().rev() {
+                        match old {
+                            Some(v) => { self.rows[k.0].insert(k.1, v); },
+                            None => { self.rows[k.0].remove(&k.1); },
+                        }
+                    }
+                    self.owner.retain(|_, o| o != h);
+                }
+            },
+            Op::TxInsert(_, t, v) | Op::Insert(t, v) => {
+                let h = if let Op::TxInsert(h, ..) = op { Some(*h) } else { None };
+                if *t >= self.rows.len() || v.len() != NCOLS || h.is_some_and(|h| !open(self, &h)) {
+                    return;
+                }
+                let id = self.next_id[*t];
+                self.next_id[*t] += 1;
+                self.write(h, (*t, id), Some(v.clone()));
+            },
+            Op::TxUpdate(_, t, c, u) | Op::Update(t, c, u) => {
+                let h = if let Op::TxUpdate(h, ..) = op { Some(*h) } else { None };
+                if h.is_some_and(|h| !open(self, &h)) || u.iter().any(|(c, _)| *c >= NCOLS) {
+                    return;
+                }
+                let Some(ids) = self.matched(h, *t, c) else { return };
+                for id in ids {
+                    let mut v = self.rows[*t][&id].clone();
+                    for (c, x) in u {
+                        v[*c] = *x;
+                    }
+                    self.write(h, (*t, id), Some(v));
+                }
+            },
+            Op::TxDelete(_, t, c) | Op::Delete(t, c) => {
+                let h = if let Op::TxDelete(h, ..) = op { Some(*h) } else { None };
+                if h.is_some_and(|h| !open(self, &h)) {
+                    return;
+                }
+                let Some(ids) = self.matched(h, *t, c) else { return };
+                for id in ids {
+                    self.write(h, (*t, id), None);
+                }
+            },
+            Op::CreateIndex(t, c) | Op::CreateBtree(t, c) => {
+                if let Some(ix) = self.indexed.get_mut(*t) {
+                    ix.insert((*c, matches!(op, Op::CreateBtree(..))));
+                }
+            },
+            Op::DropIndex(t, c) | Op::DropBtree(t, c) => {
+                if let Some(ix) = self.indexed.get_mut(*t) {
+                    ix.remove(&(*c, matches!(op, Op::DropBtree(..))));
+                }
+            },
+            _ => {},
+        }
+    }
+    /// an update by `h` (None = non-transactional) that assigns an INDEXED column (any column when the table has no
+    /// index) of a row `h` may write the value that row holds right now; the second column, when named, gets its
+    /// current value too or a random one
+    fn same_value_update(&self, rng: &mut Rng, h: Option<usize>, t: usize) -> Option<(Cond, Vec<(usize, i64)>)> {
+        let free: Vec<(u64, Vec<i64>)> = self.rows.get(t)?.iter()
+            .filter(|(id, _)| self.owner.get(&(t, **id)).is_none_or(|o| Some(*o) == h))
+            .map(|(id, v)| (*id, v.clone())).collect();
+        if free.is_empty() {
+            return None;
+        }
+        let (id, vals) = rng.pick(&free).clone();
+        let cols: Vec<usize> = self.indexed[t].iter().map(|(c, _)| *c).collect();
+        let c = if cols.is_empty() { rng.below(NCOLS as u64) as usize } else { *rng.pick(&cols) };
+        let other = (c + 1) % NCOLS;
+        let mut upd = match rng.below(4) {
+            0 => vec![(c, vals[c]), (other, vals[other])],
+            1 => vec![(c, vals[c]), (other, rng.range(0, VMAX))],
+            _ => vec![(c, vals[c])],
+        };
+        upd.sort();
+        let cond = match rng.below(8) {
+            0..=3 => Cond::Id(id),
+            4..=5 => Cond::Eq(c, vals[c]),
+            6 => Cond::Ge(other, vals[other]),
+            _ => Cond::All,
+        };
+        Some((cond, upd))
+    }
+}
+
+/// random script: setup (tables, indexes, committed rows), 2-4 interleaved transactions, all ended at the end.
+/// One update in four is aimed (`Sim::same_value_update`) at writing an indexed column back with its current value.
 fn gen_script(rng: &mut Rng, len: usize, ddl: bool) -> Vec<Op> {
+    let mut sim = Sim::default();
+    let mut synced = 0usize;
     let mut ops = vec![Op::CreateTable];
     let nt = if rng.chance(1, 3) { 2 } else { 1 };
     if nt == 2 {
@@ -1049,6 +1309,10 @@ fn gen_script(rng: &mut Rng, len: usize, ddl: bool) -> Vec<Op> {
     let mut open: Vec<usize> = vec![];
     let mut finished: Vec<usize> = vec![];
     for _ in 0..len {
+        while synced < ops.len() {
+            sim.apply(&ops[synced]);
+            synced += 1;
+        }
         let t = rng.below(nt as u64) as usize;
         let roll = rng.below(100);
         if open.is_empty() || (open.len() < max_tx && roll < 12) {
@@ -1059,7 +1323,13 @@ fn gen_script(rng: &mut Rng, len: usize, ddl: bool) -> Vec<Op> {
         }
         let h = *rng.pick(&open);
         match roll {
-            0..=26 => ops.push(Op::TxUpdate(h, t, gen_cond(rng, approx_rows[t]), gen_upd(rng))),
+            0..=26 => {
+                let aimed = if rng.chance(1, 4) { sim.same_value_update(rng, Some(h), t) } else { None };
+                match aimed {
+                    Some((c, u)) => ops.push(Op::TxUpdate(h, t, c, u)),
+                    None => ops.push(Op::TxUpdate(h, t, gen_cond(rng, approx_rows[t]), gen_upd(rng))),
+                }
+            },
             27..=41 => {
                 ops.push(Op::TxInsert(h, t, gen_vals(rng)));
                 approx_rows[t] += 1;
@@ -1079,7 +1349,13 @@ fn gen_script(rng: &mut Rng, len: usize, ddl: bool) -> Vec<Op> {
                 ops.push(Op::Insert(t, gen_vals(rng)));
                 approx_rows[t] += 1;
             },
-            78..=82 => ops.push(Op::Update(t, gen_cond(rng, approx_rows[t]), gen_upd(rng))),
+            78..=82 => {
+                let aimed = if rng.chance(1, 4) { sim.same_value_update(rng, None, t) } else { None };
+                match aimed {
+                    Some((c, u)) => ops.push(Op::Update(t, c, u)),
+                    None => ops.push(Op::Update(t, gen_cond(rng, approx_rows[t]), gen_upd(rng))),
+                }
+            },
             83..=85 => ops.push(Op::Delete(t, gen_cond(rng, approx_rows[t]))),
             86..=91 => {
                 if ddl {
@@ -1133,7 +1409,44 @@ fn directed() -> Vec<(&'static str, Cfg, Vec<Op>)> {
         v
     };
     let mut out = vec![];
-    // FIRST: lock takeover, then the OLD holder ends while the NEW holder is open (`release_keeps_foreign_locks`,
+    // FIRST (no sleeps): a transactional UPDATE that writes an INDEXED column back with the value the row already holds
+    // (ORM-style "write all columns"), then rollback — `undo_update_keeps_index_exact`: the undo entry has
+    // old value == new value, and the row must still be found through the hash index (Eq) and the b-tree index (ranges)
+    // exactly as by the full scan (index oracle after every statement).  c0 hash-indexed, c1 b-tree-indexed.
+    let sv_base = || vec![CreateTable, CreateIndex(0, 0), CreateBtree(0, 1), Insert(0, vec![1, 3]), Insert(0, vec![1, 5]), Insert(0, vec![2, 4])];
+    for (name, body) in [
+        // the seed demo's shape: both indexed columns rewritten unchanged
+        ("same_value_update_rollback_hash_and_btree", vec![Begin(0), TxUpdate(0, 0, Cond::Id(2), vec![(0, 1), (1, 5)]), Sweep, Rollback(0), Sweep]),
+        ("same_value_update_rollback_hash_only", vec![Begin(0), TxUpdate(0, 0, Cond::Id(2), vec![(0, 1)]), Rollback(0), Sweep]),
+        ("same_value_update_rollback_btree_only", vec![Begin(0), TxUpdate(0, 0, Cond::Id(2), vec![(1, 5)]), Rollback(0), Sweep]),
+        // same value on one of two updated columns
+        ("same_value_on_hash_column_other_changes", vec![Begin(0), TxUpdate(0, 0, Cond::Id(2), vec![(0, 1), (1, 2)]), Rollback(0), Sweep]),
+        ("same_value_on_btree_column_other_changes", vec![Begin(0), TxUpdate(0, 0, Cond::Id(2), vec![(0, 4), (1, 5)]), Rollback(0), Sweep]),
+        // several rows matched: rows 1 and 2 keep their value, row 3 changes
+        ("same_value_update_many_rows", vec![Begin(0), TxUpdate(0, 0, Cond::All, vec![(0, 1)]), Sweep, Rollback(0), Sweep]),
+        ("same_value_update_rows_by_index_lookup", vec![Begin(0), TxUpdate(0, 0, Cond::Eq(0, 1), vec![(0, 1), (1, 0)]), Rollback(0), Sweep]),
+        // chains on one row inside the transaction
+        ("same_value_then_changing_update", vec![Begin(0), TxUpdate(0, 0, Cond::Id(2), vec![(0, 1), (1, 5)]), TxUpdate(0, 0, Cond::Id(2), vec![(0, 3), (1, 0)]), Rollback(0), Sweep]),
+        ("changing_then_same_value_update", vec![Begin(0), TxUpdate(0, 0, Cond::Id(2), vec![(0, 3), (1, 0)]), TxUpdate(0, 0, Cond::Id(2), vec![(0, 3), (1, 0)]), Rollback(0), Sweep]),
+        ("same_value_update_then_delete", vec![Begin(0), TxUpdate(0, 0, Cond::Id(2), vec![(0, 1), (1, 5)]), TxDelete(0, 0, Cond::Id(2)), Rollback(0), Sweep]),
+        ("insert_then_same_value_update", vec![Begin(0), TxInsert(0, 0, vec![4, 4]), TxUpdate(0, 0, Cond::Id(4), vec![(0, 4), (1, 4)]), Sweep, Rollback(0), Sweep]),
+        // two transactions, the other one commits
+        ("same_value_update_two_txs", vec![Begin(0), Begin(1), TxUpdate(0, 0, Cond::Id(2), vec![(0, 1), (1, 5)]), TxUpdate(1, 0, Cond::Id(1), vec![(0, 1), (1, 3)]),
+                                           Commit(1), Rollback(0), Sweep]),
+        // controls: a -> b then b -> a in one transaction; same-value update then COMMIT; non-transactional same-value update
+        ("control_update_there_and_back_rollback", vec![Begin(0), TxUpdate(0, 0, Cond::Id(2), vec![(0, 4), (1, 0)]), TxUpdate(0, 0, Cond::Id(2), vec![(0, 1), (1, 5)]), Rollback(0), Sweep]),
+        ("control_same_value_update_commit", vec![Begin(0), TxUpdate(0, 0, Cond::Id(2), vec![(0, 1), (1, 5)]), Commit(0), Sweep]),
+        ("control_same_value_update_nontx", vec![Update(0, Cond::Id(2), vec![(0, 1), (1, 5)]), Sweep, Begin(0), TxUpdate(0, 0, Cond::Id(2), vec![(0, 0)]), Rollback(0), Sweep]),
+    ] {
+        let mut s = sv_base();
+        s.extend(body);
+        out.push((name, long, s));
+    }
+    // both index kinds on the SAME column (hash c0 + b-tree c0 + b-tree c1)
+    let mut s = base(true);
+    s.extend([Begin(0), TxUpdate(0, 0, Cond::Id(1), vec![(0, 1)]), TxUpdate(0, 0, Cond::All, vec![(1, 2)]), Sweep, Rollback(0), Sweep]);
+    out.push(("same_value_update_rollback_both_kinds_one_column", long, s));
+    // lock takeover, then the OLD holder ends while the NEW holder is open (`release_keeps_foreign_locks`,
     // `taken_over_lock_survives_old_holder_end`).  A = h0 writes rows 1 and 3 and idles past the lock timeout (not the
     // transaction timeout); B = h1 takes row 1 over by update and row 3 by delete; A ends — commit | rollback |
     // cleanup_expired (lock 2 s / tx 3 s: A times out at 3.2 s while B's 1.1 s old locks are fresh); after every
@@ -1523,6 +1836,12 @@ fn main() {
         "foreign_lock_check_at_tx_end:other_open_tx_holds_locks", "rollback_of_taken_over_row_checked",
         "old_holder_ended_while_new_holder_open:commit", "old_holder_ended_while_new_holder_open:rollback",
         "old_holder_ended_while_new_holder_open:cleanup_expired",
+        "same_value_tx_update:hash_indexed_column", "same_value_tx_update:btree_indexed_column",
+        "rollback_after_same_value_update:hash_index_checked", "rollback_after_same_value_update:btree_index_checked",
+        "commit_after_same_value_update:hash_index_checked", "commit_after_same_value_update:btree_index_checked",
+        "directed:same_value_update_rollback_hash_and_btree", "directed:same_value_on_hash_column_other_changes",
+        "directed:same_value_on_btree_column_other_changes", "directed:same_value_update_rollback_both_kinds_one_column",
+        "directed:control_update_there_and_back_rollback", "directed:control_same_value_update_commit",
         "directed:takeover_old_holder_commits", "directed:takeover_old_holder_rolls_back", "directed:takeover_old_holder_cleaned_up",
         "directed_reproduced:relational_engine.rollback/index_entry_not_restored",
         "directed_reproduced:relational_engine.rollback/committed_write_undone_after_lock_expiry",
